@@ -17,13 +17,32 @@
      C07_cannot_have_standard, C07_protocol_decision, C07_protocol_rule, C07_atomic_ignore
                               clauses of the Standard's setters, for all records / values
      C07_known_refuted        every class of Known_C07 contains a divergence (F-C07-1..12)
-   The gap (C07_statement for all URLs, values and host functions) is covered by the fixed-seed
-   differential run implementation <-> specification model of the harness (a test). *)
+     C07_hash_equiv, C07_search_equiv, C07_username_equiv, C07_password_equiv, C07_port_equiv
+                              C07_statement's one-step clause for five of the ten setters, for ALL records
+                              related by corr (Proofs/C07_Corr.v: component-wise correspondence of a
+                              well-formed model record and a URL record of the Standard), ALL values and
+                              ALL host functions: no panic, no fuel exhaustion, related again, same ten
+                              API strings (port: outside class 8 of Known_C07, F-C07-9)
+     C07_corr_api             records related by corr show the same ten API strings
+     C07_five_setters_partial / C07_five_histories
+                              the same for any one of the five / along every history of the five
+     C07_five_small_starts    the 20 start URLs of the small scope are related to their Standard's parse;
+                              for them: all histories of the five setters, all values
+     C07_opaque_class_corr / C07_five_opaque_class
+                              the second clause of C07_statement (parsing yields related records) for the
+                              opaque-path class of inputs (non-special scheme, rest not led by '/'), and
+                              with it the statement for that class x the five setters x all histories
+   The gap: the protocol, host, hostname, pathname and href setters for all records and values, and
+   "every parse outside Known_C01 yields records related by corr" (the second clause of C07_statement)
+   beyond the opaque-path class and the 20 computed start URLs.
+   It is covered by the fixed-seed differential run implementation <-> specification model of the
+   harness (a test). *)
 From Coq Require Import String.
 From RU Require Import Base.Prelude Base.Utf8 Model.AsciiSet Gen.Tables Model.PercentEncoding
   Model.HostT Model.UrlRecord Model.Parser Model.Setters Model.WF Model.KnownC01 Model.KnownC07 Spec.Whatwg
   Proofs.C06_FragQuery
-  Proofs.C07_Defs Proofs.C07_Histories Proofs.C07_Setters Proofs.C07_GetSet Proofs.C07_Small.
+  Proofs.C07_Defs Proofs.C07_Histories Proofs.C07_Setters Proofs.C07_GetSet Proofs.C07_Small
+  Proofs.C07_Corr Proofs.C07_EqFive Proofs.C07_EqOpaqueClass.
 
 (* ---------- the statement ---------- *)
 
@@ -148,6 +167,173 @@ Theorem C07_protocol_table : forall st v, In st proto_starts -> In v proto_value
     /\ model_api true u' = Some (spec_api_list toy_shs su').
 Proof. exact protocol_table. Qed.
 Print Assumptions C07_protocol_table.
+
+(* ---------- hash, search, username, password, port: all related records, all values ---------- *)
+
+(* records related by corr show the same ten API strings *)
+Theorem C07_corr_api : forall dbg shs u su, corr dbg shs u su ->
+  model_api dbg u = Some (spec_api_list shs su).
+Proof. exact corr_api. Qed.
+Check C07_corr_api : forall dbg shs u su, corr dbg shs u su ->
+  model_api dbg u = Some (spec_api_list shs su).
+Print Assumptions C07_corr_api.
+
+(* hash: fragment state with a state override; the empty value removes the fragment and, on an opaque
+   path without query, strips the trailing spaces of the path *)
+Theorem C07_hash_equiv : forall dbg hp ho hd shp shs u su v, corr dbg shs u su -> usv_list v ->
+  exists u' su', model_set dbg hp ho hd QHash u v = Some u' /\ spec_step shp QHash su v = Some su'
+    /\ corr dbg shs u' su' /\ model_api dbg u' = Some (spec_api_list shs su').
+Proof. exact hash_equiv. Qed.
+Check C07_hash_equiv : forall dbg hp ho hd shp shs u su v, corr dbg shs u su -> usv_list v ->
+  exists u' su', model_set dbg hp ho hd QHash u v = Some u' /\ spec_step shp QHash su v = Some su'
+    /\ corr dbg shs u' su' /\ model_api dbg u' = Some (spec_api_list shs su').
+Print Assumptions C07_hash_equiv.
+
+(* search: query state with a state override ('#' is an ordinary code point there), the special-query
+   set for special schemes; the empty value removes the query and strips as above *)
+Theorem C07_search_equiv : forall dbg hp ho hd shp shs u su v, corr dbg shs u su -> usv_list v ->
+  exists u' su', model_set dbg hp ho hd QSearch u v = Some u' /\ spec_step shp QSearch su v = Some su'
+    /\ corr dbg shs u' su' /\ model_api dbg u' = Some (spec_api_list shs su').
+Proof. exact search_equiv. Qed.
+Check C07_search_equiv : forall dbg hp ho hd shp shs u su v, corr dbg shs u su -> usv_list v ->
+  exists u' su', model_set dbg hp ho hd QSearch u v = Some u' /\ spec_step shp QSearch su v = Some su'
+    /\ corr dbg shs u' su' /\ model_api dbg u' = Some (spec_api_list shs su').
+Print Assumptions C07_search_equiv.
+
+(* username / password: ignored when the URL cannot have a username/password/port, otherwise the
+   userinfo-percent-encoded value *)
+Theorem C07_username_equiv : forall dbg hp ho hd shp shs u su v, corr dbg shs u su -> usv_list v ->
+  exists u' su', model_set dbg hp ho hd QUsername u v = Some u' /\ spec_step shp QUsername su v = Some su'
+    /\ corr dbg shs u' su' /\ model_api dbg u' = Some (spec_api_list shs su').
+Proof. exact username_equiv. Qed.
+Check C07_username_equiv : forall dbg hp ho hd shp shs u su v, corr dbg shs u su -> usv_list v ->
+  exists u' su', model_set dbg hp ho hd QUsername u v = Some u' /\ spec_step shp QUsername su v = Some su'
+    /\ corr dbg shs u' su' /\ model_api dbg u' = Some (spec_api_list shs su').
+Print Assumptions C07_username_equiv.
+
+Theorem C07_password_equiv : forall dbg hp ho hd shp shs u su v, corr dbg shs u su -> usv_list v ->
+  exists u' su', model_set dbg hp ho hd QPassword u v = Some u' /\ spec_step shp QPassword su v = Some su'
+    /\ corr dbg shs u' su' /\ model_api dbg u' = Some (spec_api_list shs su').
+Proof. exact password_equiv. Qed.
+Check C07_password_equiv : forall dbg hp ho hd shp shs u su v, corr dbg shs u su -> usv_list v ->
+  exists u' su', model_set dbg hp ho hd QPassword u v = Some u' /\ spec_step shp QPassword su v = Some su'
+    /\ corr dbg shs u' su' /\ model_api dbg u' = Some (spec_api_list shs su').
+Print Assumptions C07_password_equiv.
+
+(* port: ignored when the URL cannot have a port; the empty value removes the port; otherwise the leading
+   digits (tab / newline removed), default port stored as null, no digit or above 65535 => ignored.
+   Outside class 8 of Known_C07 (non-empty value of tab / newline only on a URL with a port, F-C07-9). *)
+Theorem C07_port_equiv : forall dbg hp ho hd shp shs u su v, corr dbg shs u su -> usv_list v ->
+  known_c07 u QPort v = 0 ->
+  exists u' su', model_set dbg hp ho hd QPort u v = Some u' /\ spec_step shp QPort su v = Some su'
+    /\ corr dbg shs u' su' /\ model_api dbg u' = Some (spec_api_list shs su').
+Proof. exact port_equiv. Qed.
+Check C07_port_equiv : forall dbg hp ho hd shp shs u su v, corr dbg shs u su -> usv_list v ->
+  known_c07 u QPort v = 0 ->
+  exists u' su', model_set dbg hp ho hd QPort u v = Some u' /\ spec_step shp QPort su v = Some su'
+    /\ corr dbg shs u' su' /\ model_api dbg u' = Some (spec_api_list shs su').
+Print Assumptions C07_port_equiv.
+
+(* PARTIAL C07_statement: its one-step clause (`one_step`) with R := corr, restricted to the five
+   setters and to values that are strings of scalar values (every Rust &str is).  Missing: protocol,
+   host, hostname, pathname, href; and that parsing yields records related by corr. *)
+Theorem C07_five_setters_partial : forall dbg hp ho hd shp shs u su s v,
+  corr dbg shs u su -> five s = true -> usv_list v -> known_c07 u s v = 0 ->
+  exists u' su', model_set dbg hp ho hd s u v = Some u' /\ spec_step shp s su v = Some su'
+    /\ corr dbg shs u' su' /\ model_api dbg u' = Some (spec_api_list shs su').
+Proof. exact five_step_api. Qed.
+Check C07_five_setters_partial : forall dbg hp ho hd shp shs u su s v,
+  corr dbg shs u su -> five s = true -> usv_list v -> known_c07 u s v = 0 ->
+  exists u' su', model_set dbg hp ho hd s u v = Some u' /\ spec_step shp s su v = Some su'
+    /\ corr dbg shs u' su' /\ model_api dbg u' = Some (spec_api_list shs su').
+Print Assumptions C07_five_setters_partial.
+
+(* ... along every history of assignments through the five setters *)
+Theorem C07_five_histories : forall dbg hp ho hd shp shs ops u su,
+  corr dbg shs u su -> five_ops ops -> outside_known dbg hp ho hd u ops ->
+  forall n, exists u' su',
+    model_run dbg hp ho hd u (firstn n ops) = Some u'
+    /\ spec_run shp su (firstn n ops) = Some su'
+    /\ corr dbg shs u' su'
+    /\ model_api dbg u' = Some (spec_api_list shs su').
+Proof. exact five_histories. Qed.
+Check C07_five_histories : forall dbg hp ho hd shp shs ops u su,
+  corr dbg shs u su -> five_ops ops -> outside_known dbg hp ho hd u ops ->
+  forall n, exists u' su',
+    model_run dbg hp ho hd u (firstn n ops) = Some u'
+    /\ spec_run shp su (firstn n ops) = Some su'
+    /\ corr dbg shs u' su'
+    /\ model_api dbg u' = Some (spec_api_list shs su').
+Print Assumptions C07_five_histories.
+
+(* the hypothesis corr can be met: the 20 start URLs of the small scope (special, file, non-special,
+   opaque path, empty host, credentials, port, "/." marker) are related to their Standard's parse ... *)
+Theorem C07_small_starts_corr : forall st, In st small_starts ->
+  exists u su, toy_parse st = Some u /\ toy_sparse st = Some su /\ corr true toy_shs u su.
+Proof. exact small_starts_corr. Qed.
+Print Assumptions C07_small_starts_corr.
+
+(* ... so for them the ten API strings agree after every prefix of every history of the five setters,
+   whatever the values *)
+Theorem C07_five_small_starts : forall st ops, In st small_starts -> five_ops ops ->
+  forall u, toy_parse st = Some u -> outside_known true toy_hp toy_ho toy_hd u ops ->
+  exists su, toy_sparse st = Some su
+    /\ forall n, exists u' su',
+         model_run true toy_hp toy_ho toy_hd u (firstn n ops) = Some u'
+         /\ spec_run toy_shp su (firstn n ops) = Some su'
+         /\ model_api true u' = Some (spec_api_list toy_shs su').
+Proof. exact five_from_small_starts. Qed.
+Print Assumptions C07_five_small_starts.
+
+(* the second clause of C07_statement for a whole class of inputs: a non-special scheme followed by
+   something that does not start with '/' (the opaque-path class of the C01 equivalence).  Both parsers
+   yield related records - or the model reports Overflow (serialization longer than u32::MAX) *)
+Theorem C07_opaque_class_corr : forall dbg hp ho hd shp shs input sch rem, usv_list input ->
+  parse_scheme CUrlParser (input_new_trim_c0 input) = Some (sch, rem) ->
+  scheme_type_of sch = STNotSpecial -> inp_split_prefix_char 47 rem = None ->
+  exists su, spec_basic_url_parse shp input None = BDone su
+    /\ (parse_url dbg hp ho hd None None input = PErr Overflow
+        \/ exists u, parse_url dbg hp ho hd None None input = POk u /\ corr dbg shs u su).
+Proof. exact opaque_class_corr. Qed.
+Print Assumptions C07_opaque_class_corr.
+
+(* C07_statement restricted to start URLs of that class and to the five setters, histories included:
+   parse, then any sequence of hash / search / username / password / port assignments with any values *)
+Theorem C07_five_opaque_class : forall dbg hp ho hd shp shs input sch rem u ops, usv_list input ->
+  parse_scheme CUrlParser (input_new_trim_c0 input) = Some (sch, rem) ->
+  scheme_type_of sch = STNotSpecial -> inp_split_prefix_char 47 rem = None ->
+  parse_url dbg hp ho hd None None input = POk u ->
+  five_ops ops -> outside_known dbg hp ho hd u ops ->
+  exists su, spec_basic_url_parse shp input None = BDone su
+    /\ model_api dbg u = Some (spec_api_list shs su)
+    /\ forall n, exists u' su',
+         model_run dbg hp ho hd u (firstn n ops) = Some u'
+         /\ spec_run shp su (firstn n ops) = Some su'
+         /\ model_api dbg u' = Some (spec_api_list shs su').
+Proof. exact five_from_opaque_class. Qed.
+Check C07_five_opaque_class : forall dbg hp ho hd shp shs input sch rem u ops, usv_list input ->
+  parse_scheme CUrlParser (input_new_trim_c0 input) = Some (sch, rem) ->
+  scheme_type_of sch = STNotSpecial -> inp_split_prefix_char 47 rem = None ->
+  parse_url dbg hp ho hd None None input = POk u ->
+  five_ops ops -> outside_known dbg hp ho hd u ops ->
+  exists su, spec_basic_url_parse shp input None = BDone su
+    /\ model_api dbg u = Some (spec_api_list shs su)
+    /\ forall n, exists u' su',
+         model_run dbg hp ho hd u (firstn n ops) = Some u'
+         /\ spec_run shp su (firstn n ops) = Some su'
+         /\ model_api dbg u' = Some (spec_api_list shs su').
+Print Assumptions C07_five_opaque_class.
+
+(* the class is inhabited: "  mailto:a b  ?q#f " *)
+Example C07_opaque_class_inhabited :
+  exists sch rem,
+    parse_scheme CUrlParser (input_new_trim_c0 (str "  mailto:a b  ?q#f ")) = Some (sch, rem)
+    /\ scheme_type_of sch = STNotSpecial /\ inp_split_prefix_char 47 rem = None.
+Proof. eexists. eexists. vm_compute. repeat split. Qed.
+
+Example C07_five_ops_inhabited :
+  five_ops [(QHash, str "#a b"); (QSearch, str "?x=1#y"); (QUsername, str "me@"); (QPassword, []); (QPort, str "8080x")].
+Proof. cbn [five_ops five]. repeat split; repeat constructor; vm_compute; auto. Qed.
 
 (* ---------- clauses of the Standard's setters, for all records and values ---------- *)
 
